@@ -513,3 +513,59 @@ func ReturnsOf(fn *ssa.Function) []*ssa.Return {
 	}
 	return out
 }
+
+// SameVar: a and b denote the same variable: identical SSA values, or loads of the same
+// local cell (Alloc) that is stored exactly once (a parameter spilled because a closure
+// captures it).
+func SameVar(a, b ssa.Value) bool {
+	a, b = Unwrap(a), Unwrap(b)
+	if a == b {
+		return true
+	}
+	ca, cb := spilledCell(a), spilledCell(b)
+	if ca != nil && cb != nil && ca == cb {
+		return true
+	}
+	// one is the parameter itself, the other a load of its spill cell
+	if ca != nil && cb == nil && cellInit(ca) == b {
+		return true
+	}
+	if cb != nil && ca == nil && cellInit(cb) == a {
+		return true
+	}
+	return false
+}
+
+func spilledCell(v ssa.Value) *ssa.Alloc {
+	u, ok := v.(*ssa.UnOp)
+	if !ok || u.Op != token.MUL {
+		return nil
+	}
+	al, ok := u.X.(*ssa.Alloc)
+	if !ok {
+		if fv, ok := u.X.(*ssa.FreeVar); ok {
+			_ = fv
+		}
+		return nil
+	}
+	if cellInit(al) == nil {
+		return nil
+	}
+	return al
+}
+
+// cellInit returns the single value stored into the cell, or nil when it is stored more than once.
+func cellInit(al *ssa.Alloc) ssa.Value {
+	var v ssa.Value
+	n := 0
+	for _, r := range Referrers(al) {
+		if st, ok := r.(*ssa.Store); ok && st.Addr == al {
+			n++
+			v = st.Val
+		}
+	}
+	if n == 1 {
+		return v
+	}
+	return nil
+}
